@@ -197,6 +197,150 @@ def leg_interleave(ns, res, spec):
             res.sample({'leg': 'interleave', 'pair': [SCENARIOS[i][0], SCENARIOS[j][0]], 'records': R, 'schedules': count, 'distinct_traces': traces, 'complete': complete})
 
 
+# ---------------------------------------------------------------------------------------------------------------
+# generated queries: solo results come from a pristine helper interpreter that imports rbql, never runs a query itself and forks one
+# child per case; the very same cases then run in one process in shuffled orders, and pairwise interleaved under random schedules
+
+def observe_case(ns, case, on_step=None, who=''):
+    o = boundary.run_py(ns, case['query_text'], [list(r) for r in case['A']], None if case['B'] is None else [list(r) for r in case['B']], case['a_names'], case['b_names'],
+                        on_step=on_step, who=who, scribble=False, mutating_sink=False, init_code=case.get('init_code', ''))
+    out = {'rows': json.loads(json.dumps(o.rows)), 'header': o.header, 'warnings': o.warnings, 'error': o.error, 'error_msg': (o.error_msg or '')[:300]}
+    if on_step is None:
+        # second sink: the CSV writer (it has state of its own)
+        import io
+        buf = io.StringIO(newline='')
+        warns = []
+        err = None
+        try:
+            w = ns.csv.CSVWriter(buf, False, None, ',', 'quoted_rfc')
+            reg = None if case['B'] is None else ns.engine.ListTableRegistry([ns.engine.ListTableInfo('b', [list(r) for r in case['B']], case['b_names']), ns.engine.ListTableInfo('B', [list(r) for r in case['B']], case['b_names'])])
+            ns.rbql.query(case['query_text'], ns.engine.TableIterator([list(r) for r in case['A']], case['a_names']), w, warns, reg, user_init_code=case.get('init_code', ''))
+        except Exception as e:
+            err = '%s: %s' % (type(e).__name__, str(e)[:200])
+        out['csv'] = {'text': buf.getvalue(), 'warnings': warns, 'error': err}
+    return out
+
+
+def solo_server_main():
+    """stdin: one JSON case per line; stdout: one JSON observation per line, each computed by a forked child of this query-free interpreter."""
+    ns = env.import_rbql()
+    for line in sys.stdin:
+        case = json.loads(line)
+        r, w = os.pipe()
+        pid = os.fork()
+        if pid == 0:
+            os.close(r)
+            try:
+                data = json.dumps(observe_case(ns, case))
+            except BaseException as e:   # noqa
+                data = json.dumps({'infra': repr(e)})
+            with os.fdopen(w, 'w') as f:
+                f.write(data)
+            os._exit(0)
+        os.close(w)
+        with os.fdopen(r) as f:
+            data = f.read()
+        os.waitpid(pid, 0)
+        sys.stdout.write(data + '\n')
+        sys.stdout.flush()
+
+
+def solo_results(cases):
+    e = dict(os.environ, PYTHONPATH=env.VERIF_DIR, PYTHONDONTWRITEBYTECODE='1', PYTHONHASHSEED='0', PYTHONWARNINGS='ignore')
+    p = subprocess.run([sys.executable, '-W', 'ignore', '-m', 'rv.props.c16', '--solo-server'], input=''.join(json.dumps(c) + '\n' for c in cases).encode(), stdout=subprocess.PIPE, stderr=subprocess.PIPE, env=e, cwd=env.VERIF_DIR, timeout=900)
+    lines = p.stdout.decode().splitlines()
+    if p.returncode != 0 or len(lines) != len(cases):
+        raise env.InfraError('solo server failed: rc=%s %d/%d lines, stderr %s' % (p.returncode, len(lines), len(cases), p.stderr.decode()[-400:]))
+    out = [json.loads(l) for l in lines]
+    for o in out:
+        if 'infra' in o:
+            raise env.InfraError('solo child failed: %s' % o['infra'])
+    return out
+
+
+def header_twin(rng, case):
+    """The same query TEXT over the same data with the columns (and their names) in another order."""
+    an = case['a_names']
+    A = case['A']
+    if an is None or len(an) < 2 or any(len(r) != len(an) for r in A):
+        return None
+    perm = list(range(len(an)))
+    rng.shuffle(perm)
+    if perm == sorted(perm):
+        perm.reverse()
+    t = dict(case)
+    t['a_names'] = [an[j] for j in perm]
+    t['A'] = [[r[j] for j in perm] for r in A]
+    t['twin_of'] = case['query_text']
+    return t
+
+
+def generated_cases(rng, n, base):
+    from . import c06
+    from ..model import qast
+    cases = []
+    for k in range(n):
+        c = c06.case_stream(rng, base + k)
+        ctx = qast.Ctx(c['a_names'], c['b_names'])
+        c = {'query_text': qast.render(c['q'], ctx, 'py'), 'A': c['A'], 'B': c['B'], 'a_names': c['a_names'], 'b_names': c['b_names']}
+        if k % 5 == 4:
+            c['query_text'] = rng.choice([c['query_text'] + ' +', c['query_text'].replace('SELECT', 'SELECT int(a1) + len(a9),', 1), 'SELECT ' + c['query_text']])     # failing variants
+        cases.append(c)
+        t = header_twin(rng, c)
+        if t is not None and rng.random() < 0.6:
+            cases.append(t)
+    return cases
+
+
+def diff_keys(got, solo):
+    return [k for k in sorted(set(got) | set(solo)) if got.get(k) != solo.get(k)]
+
+
+def leg_generated(ns, res, spec):
+    rng = random.Random(spec['seed'] * 4256233 + spec['i'])
+    cases = generated_cases(rng, spec['n'], spec['i'] * 100000)
+    solo = solo_results(cases)
+    res.count('generated_solo_results', len(solo))
+    res.count('generated_header_twins', sum(1 for c in cases if 'twin_of' in c))
+    # (a) histories: three passes in different orders through one interpreter
+    for p in range(3):
+        order = list(range(len(cases)))
+        rng.shuffle(order)
+        for pos, idx in enumerate(order):
+            got = observe_case(ns, cases[idx])
+            res.evaluations += 1
+            res.count('generated_history_runs')
+            res.nontrivial('gen-hist', cases[idx]['query_text'], p)
+            if got != solo[idx]:
+                prev = [cases[j]['query_text'] for j in order[max(0, pos - 3):pos]]
+                res.violation('py:generated-history-differs-from-fresh-interpreter:' + ','.join(diff_keys(got, solo[idx])), '[py] %s after %d other queries (last: %r) -> %r ; alone in a fresh interpreter -> %r' % (
+                    cases[idx]['query_text'], pos, prev, {k: got[k] for k in diff_keys(got, solo[idx])}, {k: solo[idx].get(k) for k in diff_keys(got, solo[idx])}), {'leg': 'generated-history', 'cases': [cases[j] for j in order[:pos + 1]][-8:]})
+    # (b) pairs interleaved in two threads under seeded random schedules of the get_record / write steps
+    kinds = ('get_record', 'write')
+    for _ in range(spec['pairs']):
+        i, j = rng.randrange(len(cases)), rng.randrange(len(cases))
+        for _s in range(spec['schedules']):
+            srng = random.Random(rng.randrange(1 << 30))
+
+            def body(idx, who):
+                return lambda step: observe_case(ns, cases[idx], on_step=(lambda w, op: step(w, op) if op in kinds else None), who=who)
+            s, results, excs = sched.run_schedule([body(i, '1'), body(j, '2')], [], chooser=lambda enabled, k: srng.choice(enabled))
+            res.evaluations += 1
+            res.count('generated_interleaved_schedules')
+            res.count('generated_interleaved_handoffs', s.handoffs)
+            res.nontrivial('gen-il', cases[i]['query_text'], cases[j]['query_text'], tuple(s.trace))
+            for tid, idx in ((0, i), (1, j)):
+                if excs[tid] is not None:
+                    res.violation('py:interleaving-infra', 'thread %d raised %r under schedule %r' % (tid, excs[tid], s.trace), {'leg': 'generated-interleave'})
+                    continue
+                want = {k: v for k, v in solo[idx].items() if k != 'csv'}
+                if results[tid] != want:
+                    res.violation('py:generated-interleaving-differs-from-fresh-interpreter:' + ','.join(diff_keys(results[tid], want)), '[py] %s interleaved with %s under schedule %s -> %r ; alone in a fresh interpreter -> %r' % (
+                        cases[idx]['query_text'], cases[j if tid == 0 else i]['query_text'], ''.join(str(t + 1) for t in s.trace), {k: results[tid][k] for k in diff_keys(results[tid], want)}, {k: want.get(k) for k in diff_keys(results[tid], want)}),
+                        {'leg': 'generated-interleave', 'cases': [cases[i], cases[j]], 'schedule': s.trace})
+    res.sample({'leg': 'generated', 'cases': len(cases), 'example': cases[0]['query_text'], 'solo_example': {k: solo[0][k] for k in ('rows', 'error')}})
+
+
 def leg_preempt(ns, res, spec):
     """8 threads x N queries with a tiny switch interval and seeded sleep(0) injected between statements of the engine and the generated loop."""
     R = spec['R']
@@ -265,6 +409,7 @@ def plan(tier, seed):
         for s in range(2):
             specs.append({'kind': 'history', 'R': 3, 'solo': solo3, 'k': 2, 'i': s, 'random_sequences': 150})
         specs.append({'kind': 'preempt', 'R': 3, 'solo': solo3, 'n': 60})
+        specs += [{'kind': 'generated', 'i': i, 'n': 60, 'pairs': 40, 'schedules': 3} for i in range(4)]
     else:
         solo4 = fresh_baselines(4)
         kinds = ['get_record', 'write', 'finish']
@@ -280,20 +425,21 @@ def plan(tier, seed):
             specs.append({'kind': 'history', 'R': 4, 'solo': solo4, 'k': 4, 'i': s, 'random_sequences': 1500})
         for s in range(4):
             specs.append({'kind': 'preempt', 'R': 4, 'solo': solo4, 'n': 200})
+        specs += [{'kind': 'generated', 'i': i, 'n': 400, 'pairs': 400, 'schedules': 6} for i in range(12)]
     return specs
 
 
 def run_shard(spec, res):
     ns = env.import_rbql()
-    {'history': leg_history, 'interleave': leg_interleave, 'preempt': leg_preempt}[spec['kind']](ns, res, spec)
+    {'history': leg_history, 'interleave': leg_interleave, 'preempt': leg_preempt, 'generated': leg_generated}[spec['kind']](ns, res, spec)
 
 
 def summarize(tier, seed, m):
     return {
-        'rule': '%d scenarios (plain select, like, UNNEST, ORDER BY, DISTINCT COUNT, GROUP BY with all nine aggregates, JOIN, UPDATE with NU, TOP, syntax error, parsing error, runtime error at record 2, aggregate misuse, double UNNEST, and two pairs of identical query texts over differently ordered headers); solo results from one fresh interpreter per scenario; history: every sequence of length <= 2 plus random sequences of length 3..6 in one process; interleaving: every unordered pair of scenarios (incl. a scenario with itself) in two real threads under the cooperative scheduler, ALL interleavings of the get_record / write / finish steps enumerated by stateless DFS (%s); preemption stress with sys.monitoring LINE yield injection. distinct_nontrivial = distinct step traces realised + distinct history sequences.' % (
+        'rule': '%d scenarios (plain select, like, UNNEST, ORDER BY, DISTINCT COUNT, GROUP BY with all nine aggregates, JOIN, UPDATE with NU, TOP, syntax error, parsing error, runtime error at record 2, aggregate misuse, double UNNEST, and two pairs of identical query texts over differently ordered headers); solo results from one fresh interpreter per scenario; history: every sequence of length <= 2 plus random sequences of length 3..6 in one process; interleaving: every unordered pair of scenarios (incl. a scenario with itself) in two real threads under the cooperative scheduler, ALL interleavings of the get_record / write / finish steps enumerated by stateless DFS (%s); preemption stress with sys.monitoring LINE yield injection; generated queries (C01-C05 generators, failing variants, and header twins: the same query text over the same data with the columns in another order) whose solo results come from forked children of a query-free interpreter, then run in three shuffled orders through one interpreter (probe sink and CSV writer sink) and pairwise in two threads under seeded random schedules. distinct_nontrivial = distinct step traces realised + distinct history sequences.' % (
             len(SCENARIOS), '2-record tables' if tier == 'quick' else '2- and 3-record tables for all pairs (3-record pairs capped at 20000 schedules), 4-record tables for 6 selected pairs'),
         'exhaustive': m['counters'].get('pairs_truncated', 0) == 0,
-        'required': ['schedules', 'pairs_enumerated_completely', 'handoffs', 'history_runs', 'preemption_runs', 'line_events_in_main_loop', 'injected_yields'],
+        'required': ['generated_solo_results', 'generated_header_twins', 'generated_history_runs', 'generated_interleaved_schedules', 'generated_interleaved_handoffs', 'schedules', 'pairs_enumerated_completely', 'handoffs', 'history_runs', 'preemption_runs', 'line_events_in_main_loop', 'injected_yields'],
         'assumptions': ['exhaustive at the granularity of iterator / writer calls (what the statement names); statement-level preemption is sampled; bytecode-level is not explored', 'a change of module-level state alone is not a refutation (advisory notes only)'],
     }
 
@@ -321,4 +467,7 @@ def replay(case, res):
 
 
 if __name__ == '__main__':
-    solo_main(sys.argv[1:])
+    if sys.argv[1:2] == ['--solo-server']:
+        solo_server_main()
+    else:
+        solo_main(sys.argv[1:])
